@@ -24,9 +24,10 @@ def one(arg):
     return str(d), prop, own, {k: sorted(v) for k, v in fired.items()}, errs[:2]
 if __name__ == "__main__":
     args = []
+    only = set(sys.argv[1:])   # e.g. C03/out/3
     for c in sorted(Path("/tmp/wt").glob("C??")):
         for k in sorted((c / "out").glob("*")):
-            if (k / "patch.diff").exists():
+            if (k / "patch.diff").exists() and (not only or f"{c.name}/out/{k.name}" in only or c.name in only):
                 args.append((str(k), c.name))
     with ProcessPoolExecutor(8) as ex:
         rows = list(ex.map(one, args))
